@@ -185,3 +185,86 @@ def dense_state(n, kind, seed=0, is_complex=False):
 def rel(a, scale=None):
     a = float(np.max(np.abs(a))) if np.size(a) else 0.0
     return a if scale is None else a / max(scale, 1e-300)
+
+
+def wall_keep(sc, codec):
+    """0/1 vector over the flat state: 0 on tangential E of PEC cells and tangential H of PMC cells
+    (the wall conditions a physical state satisfies), 1 elsewhere."""
+    shape = sc.objects.volume.grid_shape
+    keepE = np.ones((3, *shape))
+    keepH = np.ones((3, *shape))
+    for b in sc.objects.boundary_objects:
+        tang = [c for c in range(3) if c != b.axis]
+        if isinstance(b, fdtdx.PerfectElectricConductor):
+            for c in tang:
+                keepE[(c, *b.grid_slice)] = 0
+        elif isinstance(b, fdtdx.PerfectMagneticConductor):
+            for c in tang:
+                keepH[(c, *b.grid_slice)] = 0
+    keep = np.ones(codec.n)
+    lo, hi, _ = codec.slot_range(("E",))
+    keep[lo:hi] = keepE.ravel()
+    lo, hi, _ = codec.slot_range(("H",))
+    keep[lo:hi] = keepH.ravel()
+    return keep
+
+
+def eval_rows(fn, X, dtype):
+    return np.asarray(jax.vmap(fn)(jnp.asarray(X, dtype=dtype)))
+
+
+class Stepper:
+    """One jit-compiled, row-vmapped evaluation of a real step function `fn(t, arrays) -> arrays` per scene:
+    F(tvec (B,), X (B,n)) -> (B,n_out). Every use (tabulation on all basis states, affinity rows, per-time-index
+    probes) is padded to the same batch size B, so a scene costs exactly one XLA compile per direction.
+    (Eager evaluation re-traces every lax.cond of the code under test on every call.)"""
+
+    def __init__(self, sc, codec, kind, B, arrays=None, **kw):
+        self.sc, self.codec, self.B, self.n = sc, codec, B, codec.n
+        base = sc.arrays if arrays is None else arrays
+        if kind == "forward":
+            rd = kw.get("record_detectors", False)
+            rb = kw.get("record_boundaries", False)
+            sb = kw.get("simulate_boundaries", True)
+
+            def one(t, v):
+                a = codec.unpack(base, v)
+                _, a2 = forward((t, a), sc.config, sc.objects, KEY, rd, rb, sb)
+                return codec.pack(a2)
+
+        elif kind == "backward":
+            rf = kw.get("reset_fields", True)
+
+            def one(t, v):
+                a = codec.unpack(base, v)
+                _, a2 = backward((t, a), sc.config, sc.objects, KEY, record_detectors=False, reset_fields=rf)
+                return codec.pack(a2)
+
+        else:
+            one = kind  # custom callable (t, v) -> v_out
+        self._F = jax.jit(jax.vmap(one))
+
+    def __call__(self, tvec, X):
+        X = np.asarray(X)
+        k = X.shape[0]
+        outs = []
+        for lo in range(0, k, self.B):
+            hi = min(k, lo + self.B)
+            Xp = np.zeros((self.B, self.n), dtype=X.dtype)
+            Xp[: hi - lo] = X[lo:hi]
+            tp = np.zeros((self.B,), dtype=np.int32)
+            tp[: hi - lo] = np.asarray(tvec)[lo:hi]
+            out = np.asarray(self._F(jnp.asarray(tp), jnp.asarray(Xp, dtype=self.codec.dtype)))
+            outs.append(out[: hi - lo])
+        return np.concatenate(outs, axis=0)
+
+    def tabulate(self, t, block=()):
+        """(M, b, affinity defect, evaluations) of the step at time index t."""
+        n = self.n
+        A = affinity_rows(n, block, self.codec.is_complex)
+        X = np.concatenate([np.zeros((1, n), dtype=A.dtype), np.eye(n, dtype=A.dtype), A], axis=0)
+        out = self(np.full((X.shape[0],), t), X)
+        b = out[0]
+        M = (out[1 : n + 1] - b[None, :]).T
+        d = affinity_defect_from(A, out[n + 1 :], M, b)
+        return M, b, d, X.shape[0]
